@@ -11,6 +11,7 @@ import MosnVerif.Lemmas.H1Seg
 import MosnVerif.Lemmas.H1SegStable
 import MosnVerif.Lemmas.H1Continue
 import MosnVerif.Lemmas.BoltHandover
+import MosnVerif.Lemmas.CheckedMatchEq
 /-!
 # C07 — message extraction is independent of how TCP segments the byte stream (property theorems only)
 
@@ -844,5 +845,32 @@ example : (run (envelope lateHdr (boltOk true)) [v2req24 ++ v1resp20]).out = [v2
     (run (envelope lateHdr (boltOk true)) [v2req24 ++ v1resp20]).buf = v1resp20 := by decide
 
 end BoltHandover
+/-! ## [c08p10] the selection theorems over the REGENERATED matchers (Gen/C08Matchers: the Go matcher bodies translated
+statement by statement; `Lemmas/CheckedMatchEq.genMatcherOf_eq`: they are the hand model's functions) -/
+section c08p10gen
+open MosnVerif.Lemmas.CheckedMatchEq
+
+/-- **match_monotone_gen**: every REGENERATED protocol matcher is monotone: an answer `success` or `failed` on a prefix
+is final on every extension -/
+theorem match_monotone_gen (name : String) (m : Bytes → MR) (h : genMatcherOf name = some m) : Monotone m :=
+  match_monotone name m (by rw [← genMatcherOf_eq]; exact h)
+
+/-- **select_failed_is_final_gen**: over the REGENERATED matchers of any scope, a failed selection is final on every
+extension, for every stream -/
+theorem select_failed_is_final_gen (names : List String) (p e : Bytes) (h : select (genScopeOf names) p = .failed) :
+    select (genScopeOf names) (p ++ e) = .failed := by
+  rw [genScopeOf_eq] at h ⊢
+  exact select_failed_is_final names p e h
+
+/-- … and so is a selected protocol on streams on which at most one matcher of the scope can ever succeed -/
+theorem select_deterministic_gen_partial (names : List String) (p e : Bytes) (hx : Exclusive (genScopeOf names) p)
+    (n : String) (h : select (genScopeOf names) p = .proto n) : select (genScopeOf names) (p ++ e) = .proto n := by
+  rw [genScopeOf_eq] at hx h ⊢
+  exact select_deterministic_partial names p e hx n h
+
+-- non-vacuity: the regenerated tars matcher waits on 5 bytes, accepts a complete 6-byte package, refuses version 2
+example : (genMatcherOf "tars").map (fun m => (m [0, 0, 0, 6, 0x10], m [0, 0, 0, 6, 0x10, 1], m [0, 0, 0, 6, 0x10, 2])) =
+    some (.again, .success, .failed) := by decide
+end c08p10gen
 
 end MosnVerif.Props.C07
